@@ -5,9 +5,10 @@ Model of `PrettyPrinter` in `/repo/ak/ppobj.py` (C11), generic in the keyword ta
 the layout numbers (`Limits`); the values read from the source (`Gen.C11`) are plugged in at the
 property level and in the driver.
 
-* `J`            — a JSON-like value. `num t` carries the text `str(value)` of an int/float
-                   (supplied by the harness, never re-implemented); `dict` is the list of items in
-                   insertion order.
+* `J`            — a JSON-like value. `int n` is a Python int (its text is computed by `showInt`,
+                   the model of `str(int)`: decimal digits, `-` for negatives); `num t` carries the
+                   text `str(value)` of a float (supplied by the harness, never re-implemented);
+                   `dict` is the list of items in insertion order.
 * `simple?`      — `_value_is_simple` together with the case analysis of `_simple_val_to_ch_chunk`
                    (a value is simple unless it is a non-empty list / dict); `simpleChunk` is the
                    text of the chunk. The function is total on `Simple`, so the `assert False` of
@@ -33,6 +34,7 @@ inductive Kw where
 
 inductive J where
   | str (s : List Char)
+  | int (n : Int)
   | num (t : List Char)
   | kw (k : Kw)
   | list (xs : List J)
@@ -61,13 +63,26 @@ structure Limits where
   /-- `offset + …` (indentation step) -/
   indent : Nat
 
-/-- text of a `CHText.Chunk` (colours are not part of C11) -/
-abbrev Chunk := List Char
+/-- the syntax class of a chunk: which method of the palette made it (`cp.text`, `cp.name`,
+`cp.number`, `cp.keyword`); C11 is about the text only, C10 colours the chunks by this class -/
+inductive Kind where
+  | text | name | number | keyword
+  deriving DecidableEq, Repr
+
+/-- a `CHText.Chunk`: syntax class and text -/
+structure Chunk where
+  kind : Kind
+  text : List Char
+  deriving DecidableEq, Repr
+
+/-- `cp.text(t)` -/
+def plain (t : List Char) : Chunk := ⟨.text, t⟩
 
 /-! ## simple values -/
 
 inductive Simple where
   | str (s : List Char)
+  | int (n : Int)
   | num (t : List Char)
   | kw (k : Kw)
   | emptyList
@@ -75,6 +90,7 @@ inductive Simple where
 
 def J.simple? : J → Option Simple
   | .str s => some (.str s)
+  | .int n => some (.int n)
   | .num t => some (.num t)
   | .kw k => some (.kw k)
   | .list [] => some .emptyList
@@ -98,25 +114,42 @@ def allSimpleD? : List (List Char × J) → Option (List (List Char × Simple))
     | some s, some ss => some ((k, s) :: ss)
     | _, _ => none
 
-def quoted (s : List Char) : Chunk := '"' :: (s ++ ['"'])
+/-! `str(int)`: decimal digits, most significant first, no leading zero, `-` for negatives -/
+
+def digitChar (d : Nat) : Char := Char.ofNat (48 + d)
+
+/-- decimal digits, least significant first; `lsDigits n n` is the whole number (fuel `n` suffices) -/
+def lsDigits : Nat → Nat → List Nat
+  | 0, _ => []
+  | f + 1, n => if n = 0 then [] else (n % 10) :: lsDigits f (n / 10)
+
+def showNat (n : Nat) : List Char :=
+  if n = 0 then ['0'] else (lsDigits n n).reverse.map digitChar
+
+def showInt : Int → List Char
+  | .ofNat n => showNat n
+  | .negSucc n => '-' :: showNat (n + 1)
+
+def quoted (s : List Char) : List Char := '"' :: (s ++ ['"'])
 
 /-- `_simple_val_to_ch_chunk(...).text` -/
 def simpleChunk (c : Consts) : Simple → Chunk
-  | .str s => quoted s
-  | .num t => t
-  | .kw k => c.lit k
-  | .emptyList => ['[', ']']
-  | .emptyDict => ['{', '}']
+  | .str s => plain (quoted s)
+  | .int n => ⟨.number, showInt n⟩
+  | .num t => ⟨.number, t⟩
+  | .kw k => ⟨.keyword, c.lit k⟩
+  | .emptyList => plain ['[', ']']
+  | .emptyDict => plain ['{', '}']
 
 /-- `_dict_key_to_sc_chunk(...).text` for a string key -/
-def keyChunk (k : List Char) : Chunk := quoted k
+def keyChunk (k : List Char) : Chunk := ⟨.name, quoted k⟩
 
-def spaces (n : Nat) : Chunk := List.replicate n ' '
+def spaces (n : Nat) : List Char := List.replicate n ' '
 
 /-- `CHText.calc_chunks_len` -/
 def chunksLen : List Chunk → Nat
   | [] => 0
-  | ch :: r => ch.length + chunksLen r
+  | ch :: r => ch.text.length + chunksLen r
 
 /-! ## key order -/
 
@@ -141,45 +174,46 @@ def sortE {α : Type} : List (List Char × α) → List (List Char × α)
 /-- items of a one-line container separated by `", "` -/
 def sepItems : Bool → List (List (Option Chunk)) → List (Option Chunk)
   | _, [] => []
-  | first, it :: r => (if first then [] else [some [',', ' ']]) ++ it ++ sepItems false r
+  | first, it :: r => (if first then [] else [some (plain [',', ' '])]) ++ it ++ sepItems false r
 
 /-- one item per line: `[","] NL prefix item` -/
-def multiBody (pre : Chunk) : Bool → List (List (Option Chunk)) → List (Option Chunk)
+def multiBody (pre : List Char) : Bool → List (List (Option Chunk)) → List (Option Chunk)
   | _, [] => []
   | first, it :: r =>
-    (if first then [] else [some [',']]) ++ [none, some pre] ++ it ++ multiBody pre false r
+    (if first then [] else [some (plain [','])]) ++ [none, some (plain pre)] ++ it ++ multiBody pre false r
 
 def multiLine (L : Limits) (o cl : Char) (off : Nat) (subs : List (List (Option Chunk))) :
     List (Option Chunk) :=
-  some [o] :: (multiBody (spaces (off + L.indent)) true subs ++ [none, some (spaces off ++ [cl])])
+  some (plain [o]) ::
+    (multiBody (spaces (off + L.indent)) true subs ++ [none, some (plain (spaces off ++ [cl]))])
 
 /-- the loop of the wrapped layout; `ly` = `len_yielded`, `first` = `is_first_in_line`.
 The loop leaves through `break` at the last item, after the new-line marker. -/
 def wrapItems (L : Limits) (off : Nat) : List Chunk → Nat → Bool → List (Option Chunk)
   | [], _, _ => []
   | it :: rest, ly, first =>
-    let cur := it.length
+    let cur := it.text.length
     let brk := decide (ly + cur > L.wrap) && !first
     let first' := first || brk
     let ly' := if brk then 0 else ly
     let ly'' := if first' then off + L.indent else ly' + 2
-    (if brk then [some [','], none] else []) ++
-    [some (if first' then spaces (off + L.indent) else [',', ' ']), some it] ++
+    (if brk then [some (plain [',']), none] else []) ++
+    [some (plain (if first' then spaces (off + L.indent) else [',', ' '])), some it] ++
     (match rest with
      | [] => [none]
      | _ :: _ => wrapItems L off rest (ly'' + cur) false)
 
 def wrappedList (L : Limits) (off : Nat) (items : List Chunk) : List (Option Chunk) :=
-  [some ['['], none] ++ wrapItems L off items 0 true ++ [some (spaces off ++ [']'])]
+  [some (plain ['[']), none] ++ wrapItems L off items 0 true ++ [some (plain (spaces off ++ [']']))]
 
 /-- a dict entry in the one-line layout: key, `": "`, value -/
 def entryChunks (k : List Char) (val : List (Option Chunk)) : List (Option Chunk) :=
-  some (keyChunk k) :: some [':', ' '] :: val
+  some (keyChunk k) :: some (plain [':', ' ']) :: val
 
 def optLen : List (Option Chunk) → Nat
   | [] => 0
   | none :: r => optLen r
-  | some ch :: r => ch.length + optLen r
+  | some ch :: r => ch.text.length + optLen r
 
 def renderList (c : Consts) (L : Limits) (off : Nat) (xs : List J)
     (subs : List (List (Option Chunk))) : List (Option Chunk) :=
@@ -190,7 +224,7 @@ def renderList (c : Consts) (L : Limits) (off : Nat) (xs : List J)
     | some ss =>
       let items := ss.map (simpleChunk c)
       if off + (chunksLen items + 2 * items.length) < L.oneLineList then
-        some ['['] :: (sepItems true (items.map fun it => [some it]) ++ [some [']']])
+        some (plain ['[']) :: (sepItems true (items.map fun it => [some it]) ++ [some (plain [']'])])
       else wrappedList L off items
     | none => multiLine L '[' ']' off subs
 
@@ -202,9 +236,9 @@ def renderDict (c : Consts) (L : Limits) (off : Nat) (kvs : List (List Char × J
     let multi := multiLine L '{' '}' off ((sortE subs).map fun e => entryChunks e.1 e.2)
     match allSimpleD? kvs with
     | some ss =>
-      let chunks := some ['{'] ::
+      let chunks := some (plain ['{']) ::
         (sepItems true ((sortE ss).map fun e => entryChunks e.1 [some (simpleChunk c e.2)]) ++
-          [some ['}']])
+          [some (plain ['}'])])
       if off + optLen chunks < L.oneLineDict then chunks else multi
     | none => multi
 
@@ -212,6 +246,7 @@ mutual
 /-- `_gen_ch_chunks_for_obj(cp, v, offset)` as a list; `none` is the new-line marker -/
 def gen (c : Consts) (L : Limits) : J → Nat → List (Option Chunk)
   | .str s, _ => [some (simpleChunk c (.str s))]
+  | .int n, _ => [some (simpleChunk c (.int n))]
   | .num t, _ => [some (simpleChunk c (.num t))]
   | .kw k, _ => [some (simpleChunk c (.kw k))]
   | .list xs, off => renderList c L off xs (genList c L xs (off + L.indent))
@@ -229,7 +264,7 @@ end
 def text : List (Option Chunk) → List Char
   | [] => []
   | none :: r => '\n' :: text r
-  | some ch :: r => ch ++ text r
+  | some ch :: r => ch.text ++ text r
 
 /-- `_gen_ch_lines`: a line is closed at every marker; what is left is a line if it has chunks -/
 def groupLinesGo : List Chunk → List (Option Chunk) → List (List Chunk)
@@ -239,17 +274,21 @@ def groupLinesGo : List Chunk → List (Option Chunk) → List (List Chunk)
 
 def groupLines (cs : List (Option Chunk)) : List (List Chunk) := groupLinesGo [] cs
 
+/-- `line.plain_text()` -/
+def lineText (l : List Chunk) : List Char := (l.map (·.text)).flatten
+
 /-- `"\n".join(line.plain_text() for line in lines)` -/
 def joinLines : List (List Chunk) → List Char
   | [] => []
-  | [l] => l.flatten
-  | l :: m :: r => l.flatten ++ '\n' :: joinLines (m :: r)
+  | [l] => lineText l
+  | l :: m :: r => lineText l ++ '\n' :: joinLines (m :: r)
 
 /-! ## the value the printer is expected to denote: dict entries in sorted key order -/
 
 mutual
 def norm : J → J
   | .str s => .str s
+  | .int n => .int n
   | .num t => .num t
   | .kw k => .kw k
   | .list xs => .list (normList xs)
@@ -267,6 +306,7 @@ end
 inductive Tok where
   | lbrack | rbrack | lbrace | rbrace | comma | colon
   | str (s : List Char)
+  | int (n : Int)
   | num (t : List Char)
   | kw (k : Kw)
   deriving DecidableEq, Repr
@@ -317,6 +357,23 @@ def numOk (t : List Char) : Bool :=
   | some s => naccept s
   | none => false
 
+/-- value of a run of decimal digits -/
+def decVal (cs : List Char) : Nat := cs.foldl (fun a ch => 10 * a + (ch.toNat - 48)) 0
+
+/-- the integer a number text denotes when it is `-? digits` (no fraction, no exponent) -/
+def intOf? : List Char → Option Int
+  | [] => none
+  | ch :: r =>
+    if ch = '-' then
+      (if !r.isEmpty && r.all isDigit then some (-(decVal r : Int)) else none)
+    else if (ch :: r).all isDigit then some (decVal (ch :: r) : Int) else none
+
+/-- the token of a number text: an integer when it is one, the text otherwise (a float) -/
+def numTok (t : List Char) : Tok :=
+  match intOf? t with
+  | some n => .int n
+  | none => .num t
+
 def kwOf (c : Consts) (w : List Char) : Option Kw :=
   if w = c.tt then some .tt else if w = c.ff then some .ff else if w = c.nul then some .nul else none
 
@@ -355,7 +412,7 @@ def step (c : Consts) : LState → Char → Option (LState × List Tok)
     else none
   | .inNum acc, ch =>
     if numChar ch then some (.inNum (ch :: acc), [])
-    else if numOk acc.reverse then closeWith (.num acc.reverse) ch
+    else if numOk acc.reverse then closeWith (numTok acc.reverse) ch
     else none
   | .inWord acc, ch =>
     if isLetter ch then some (.inWord (ch :: acc), [])
@@ -366,7 +423,7 @@ def step (c : Consts) : LState → Char → Option (LState × List Tok)
 def finish (c : Consts) : LState → Option (List Tok)
   | .idle => some []
   | .inStr _ => none
-  | .inNum acc => if numOk acc.reverse then some [.num acc.reverse] else none
+  | .inNum acc => if numOk acc.reverse then some [numTok acc.reverse] else none
   | .inWord acc =>
     match kwOf c acc.reverse with
     | some k => some [.kw k]
@@ -395,6 +452,7 @@ def parseV : Nat → List Tok → Option (J × List Tok)
   | 0, _ => none
   | _ + 1, [] => none
   | _ + 1, .str s :: r => some (.str s, r)
+  | _ + 1, .int n :: r => some (.int n, r)
   | _ + 1, .num t :: r => some (.num t, r)
   | _ + 1, .kw k :: r => some (.kw k, r)
   | f + 1, .lbrack :: r =>
@@ -456,6 +514,7 @@ def read (c : Consts) (cs : List Char) : Option J :=
 mutual
 def toks : J → List Tok
   | .str s => [.str s]
+  | .int n => [.int n]
   | .num t => [.num t]
   | .kw k => [.kw k]
   | .list xs => .lbrack :: (toksList true xs ++ [.rbrack])
@@ -472,10 +531,12 @@ end
 /-! ## domain -/
 
 mutual
-/-- the quantifier of C11: strings without quote, backslash, control characters; finite numbers -/
+/-- the quantifier of C11: strings without quote, backslash, control characters; any int; a float given
+by a text of the JSON number grammar that is not an integer text -/
 def WF : J → Prop
   | .str s => s.all strOk = true
-  | .num t => numOk t = true
+  | .int _ => True
+  | .num t => numOk t = true ∧ intOf? t = none
   | .kw _ => True
   | .list xs => WFList xs
   | .dict kvs => WFEntries kvs
@@ -488,9 +549,27 @@ def WFEntries : List (List Char × J) → Prop
 end
 
 mutual
+/-- `WF` as a test: the driver refuses a request whose value is outside the domain (`C11.wf_checked`) -/
+def wfB : J → Bool
+  | .str s => s.all strOk
+  | .int _ => true
+  | .num t => numOk t && (intOf? t).isNone
+  | .kw _ => true
+  | .list xs => wfBList xs
+  | .dict kvs => wfBEntries kvs
+def wfBList : List J → Bool
+  | [] => true
+  | x :: xs => wfB x && wfBList xs
+def wfBEntries : List (List Char × J) → Bool
+  | [] => true
+  | (k, v) :: r => k.all strOk && wfB v && wfBEntries r
+end
+
+mutual
 /-- equality of values up to the order of dict entries (Python's `==` on such values) -/
 inductive Eqv : J → J → Prop
   | str (s : List Char) : Eqv (.str s) (.str s)
+  | int (n : Int) : Eqv (.int n) (.int n)
   | num (t : List Char) : Eqv (.num t) (.num t)
   | kw (k : Kw) : Eqv (.kw k) (.kw k)
   | list {xs ys : List J} : EqvL xs ys → Eqv (.list xs) (.list ys)
@@ -509,6 +588,7 @@ mutual
 /-- every dict inside the value has pairwise distinct keys (true of any Python dict) -/
 def DistinctKeys : J → Prop
   | .str _ => True
+  | .int _ => True
   | .num _ => True
   | .kw _ => True
   | .list xs => DistinctKeysL xs
@@ -525,6 +605,7 @@ mutual
 /-- every dict inside the value lists its entries in strictly increasing key order -/
 def KeysSorted : J → Prop
   | .str _ => True
+  | .int _ => True
   | .num _ => True
   | .kw _ => True
   | .list xs => KeysSortedL xs
